@@ -231,10 +231,16 @@ func VerifRdOracle() {
 		verifrt.Assume(perm.status != refTooLong && perm.status != refSkip)
 	}
 
-	// the standard library on the same bytes (oracle for acceptance and error kind)
-	sr := stdflate.NewReader(bytes.NewReader(c.stream))
-	sout, serr, _ := vhDrain(sr, 64, M+c.preOut+300)
-	sk := vhErrKind(serr)
+	// the standard library on the same bytes (validates the reference; S=1)
+	withStd := verifrt.Param("S") == 1
+	var sout []byte
+	sk := 0
+	if withStd {
+		sr := stdflate.NewReader(bytes.NewReader(c.stream))
+		var serr error
+		sout, serr, _ = vhDrain(sr, 64, M+c.preOut+300)
+		sk = vhErrKind(serr)
+	}
 
 	fr := NewReader(bytes.NewReader(c.stream))
 	fout, ferr, stalls := vhDrain(fr, bsz, M+c.preOut+300)
@@ -242,10 +248,10 @@ func VerifRdOracle() {
 	verifrt.ObserveBytes("stream", c.stream)
 	verifrt.ObserveBytes("fout", fout)
 	verifrt.Observe("fk", uint64(fk))
-	verifrt.Observe("sk", uint64(sk))
 
 	// reference vs stdlib (validates the reference itself)
-	if strict.status == refComplete {
+	if !withStd {
+	} else if strict.status == refComplete {
 		verifrt.Assert(sk == 1, "REF:stdlib-accepts")
 		verifrt.Assert(vhEqual(sout, strict.out), "REF:stdlib-bytes")
 	} else {
